@@ -61,6 +61,14 @@ def cases(tier, seed, ctx=None):
         c = content(n)
         for ops in ([FEED(c), START, FINISH, TURN], [FEED(c[:1]), START, FEED(c[1:]), FINISH, TURN], [START, FEED(c), FINISH, TURN, TURN], [FEED(c), START, FINISH]):
             yield ("copier", [c, 1, 3, 0, -1, [0, 0, 0, 0, 1], ops, [14, 3]], "seq-final-flush-fails")
+    # a random-access source that reports no size and nothing available (a procfs-style pseudo file) and still delivers its content
+    for n in (0, 5, 40):
+        c = content(n)
+        # (contents that fit in one block: what such a device says about its end after the first read is its own business)
+        for bs in (64, 41):
+            for frm, to in ((0, -1), (2, -1), (1, 3)):
+                if frm <= n:
+                    yield ("copier", [c, 0, bs, frm, to, NOFAIL + [0, 0, 1], [START] + [TURN] * (n // bs + 3), [14, 0]], "ra-sizeless-source")
     # multi-block contents
     for n in (40, 255, 256, 257, 1000):
         c = content(n)
